@@ -23,6 +23,8 @@ CLAUSE_OF = {
     "P10": ("C11", "an identifier whose exchange has ended is still refused as in use"),
     "P11": ("C11", "PUBCOMP(success) written for an identifier that was not awaiting a PUBREL"),
     "P12": ("C15", "the DISCONNECT written for a cause with a dedicated MQTT 5 code does not carry it"),
+    "P13": ("C12", "receive maximum: the peer was refused with 0x93 although it stayed within its quota, or exceeded "
+                   "it and was not refused with 0x93"),
     "P9": ("C17", "a handler saw a topic that is not the latest binding of the alias used"),
 }
 # recorded findings that the scan can hit (see known_findings.json)
@@ -241,6 +243,9 @@ class InbPart(Part):
             bad = bad + p10(self.ver, case, obs)
         if "C15" in self.want and self.engine == "inb5":
             bad = bad + p12(self.ver, case, obs)
+        elif "C12" in self.want and self.engine == "inb5":
+            # receive maximum: 0x93 for a peer within its quota, or another code for a peer over it
+            bad = bad + [b.replace("P12 ", "P13 ") for b in p12(self.ver, case, obs) if "147" in b]
         for b in bad:
             code = b.split(" ")[0]
             if code in ("P6", "P7"):
